@@ -14,6 +14,7 @@ def main(tier):
     rep.attempt(_frame.great_circle, P, rep)     # the value under the clamp is the cosine of the central angle
     kernels.kd_structure(P, rep)
     kernels.conversion_roundtrip(P, rep)
+    rep.attempt(_frame.conversion_paths, P, rep)     # ... on every path, in all octants and near the poles
     kernels.point_kernels(P, rep)
     footprint.polygon_boundary(P, rep)
     rep.assumptions.append("nearest-ness of the kd search result, polygon exactness, Newton convergence are NOT decided (numeric); the conversion round trip is decided "
